@@ -1,6 +1,7 @@
 import ApolloModel.Proofs.TypedDoc
 import ApolloModel.Proofs.TypedIter
 import ApolloModel.Proofs.TypedValid
+import ApolloModel.Proofs.TypedValid3
 /-
 C18 — Executable documents are typed consistently with the schema.
 
@@ -137,6 +138,59 @@ theorem valid_entered_fragment (p : Params) (sc : Schema) (doc : BuiltDoc) (n : 
     (ht : typed sc f.tc f.sels = true) (h : enterFrag p (some sc) doc n f V = ([], V')) :
     sc.kind f.tc = some .composite ∧ ¬ f.name ∈ reach doc f.sels ∧ treeOk sc doc f.tc f.sels = true :=
   enterFrag_treeOk p sc doc n f V V' ht h
+
+/-- **Every fragment of a valid document is entered** by the validation walk of some operation
+    (`validate_fragment_definition` ran on it and reported nothing): the unused-fragment rule puts it in the
+    `reach` of an operation, and a quiet walk marks and enters everything the operation reaches. -/
+theorem valid_all_fragments_entered (defer : BuiltDoc → List Nat) (sc : Schema) (ast : Ast)
+    (h : validate (currentParams defer) (some sc) ast = []) :
+    ∀ f, f ∈ (build (some sc) ast).doc.frags → Entered (currentParams defer) sc (build (some sc) ast).doc f :=
+  Apollo.Standalone.valid_all_fragments_entered _ rfl sc ast h
+
+/-- **valid_document_wellformed** — second sentence of the property, on the validation model, for every schema
+    view and document: in a document that validates, in every operation AND in every fragment definition,
+    fields are defined on their parent type, composite fields have sub-selections, leaf fields have none, every
+    spread names an existing fragment (`treeOk`); every fragment's type condition is a composite type and no
+    fragment is on a spread cycle. -/
+theorem valid_document_wellformed (defer : BuiltDoc → List Nat) (sc : Schema) (ast : Ast)
+    (h : validate (currentParams defer) (some sc) ast = []) :
+    (∀ o, o ∈ (build (some sc) ast).doc.ops →
+      ∃ t, sc.root o.ty = some t ∧ treeOk sc (build (some sc) ast).doc t o.sels = true) ∧
+    (∀ f, f ∈ (build (some sc) ast).doc.frags →
+      sc.kind f.tc = some .composite ∧ ¬ f.name ∈ reach (build (some sc) ast).doc f.sels ∧
+        treeOk sc (build (some sc) ast).doc f.tc f.sels = true) :=
+  valid_document_wellformed_model _ rfl sc ast h
+
+/-- **Variables, per operation** (PARTIAL: the value-level rule itself is not modelled).  In a valid document,
+    for every operation `o`: its walk is quiet, marks every fragment `o` reaches through spreads, and ENTERS each
+    of them — `validate_fragment_definition` runs on it within `o`'s `OperationValidationContext`, i.e. with `o`'s
+    variable definitions.  Consequently every variable occurrence that `o` uses (`usedVars`, the set the
+    unused-variable rule works with) sits in `o`'s own directives / selection tree or in the directives / body of a
+    fragment entered by `o`'s walk: the places where `value_of_correct_type` is called with `o.variables`.
+    What is missing for the full "every used variable is defined": the rule `UndefinedVariable` of value.rs is a
+    typed rule outside the model — and it is FALSE of the code for variables inside an object literal given to a
+    custom scalar (finding `valid-undefined-variable-in-custom-scalar-object`). -/
+theorem valid_vars_defined_partial (defer : BuiltDoc → List Nat) (sc : Schema) (ast : Ast)
+    (h : validate (currentParams defer) (some sc) ast = []) :
+    ∀ o, o ∈ (build (some sc) ast).doc.ops → ∀ v ∈ usedVars (build (some sc) ast).doc o,
+      v ∈ varsDirs o.dirs ∨ v ∈ varsSels o.sels ∨
+      ∃ d, d ∈ (build (some sc) ast).doc.frags ∧ d.name ∈ reach (build (some sc) ast).doc o.sels ∧
+        Entered (currentParams defer) sc (build (some sc) ast).doc d ∧ (v ∈ varsDirs d.dirs ∨ v ∈ varsSels d.sels) := by
+  intro o ho v hv
+  obtain ⟨t, V', _, _, hreach, hdone⟩ :=
+    valid_reached_fragments_entered_per_operation _ rfl sc ast h o ho
+  simp only [usedVars, List.mem_append, List.mem_flatMap] at hv
+  rcases hv with (hv | hv) | ⟨g, hg, hv⟩
+  · exact .inl hv
+  · exact .inr (.inl hv)
+  · right; right
+    obtain ⟨d, hd, hent, _⟩ := hdone g (hreach g hg)
+    rw [hd] at hv
+    have hmem : d ∈ (build (some sc) ast).doc.frags := List.mem_of_find?_eq_some hd
+    have hname : d.name = g := by
+      have := List.find?_some hd
+      simpa using this
+    exact ⟨d, hmem, by rw [hname]; exact hg, hent, by simpa [List.mem_append] using hv⟩
 
 /-! ### non-vacuity -/
 
